@@ -409,6 +409,8 @@ class PGen:
 # ------------------------------------------------------------------ one-edit mutations of a target
 def paths(v, pre=()):
     yield pre
+    if isinstance(v, dict) and 'sub' in v:
+        return                     # (a subclass instance is edited as a whole)
     if isinstance(v, dict):
         if 'l' in v or 't' in v or 'set' in v or 'fs' in v:
             key = [x for x in ('l', 't', 'set', 'fs') if x in v][0]
@@ -453,6 +455,30 @@ def equiv(j):
     if isinstance(v, float) and v == int(v):
         return jv(int(v))
     return None
+
+
+SUBCLASS_OF = {'d': 'MyDict', 'l': 'MyList', 't': 'MyTuple', 'set': 'MySet', 'fs': 'MyFset', 's': 'MyStr'}
+SUB_POOL_J = [{'sub': 'MyDict', 'v': {'d': [[{'s': 'a'}, {'i': 1}]]}}, {'sub': 'MyDict', 'v': {'d': []}},
+              {'sub': 'MyList', 'v': {'l': [{'i': 1}, {'s': 'a'}]}}, {'sub': 'MyList', 'v': {'l': []}},
+              {'sub': 'MyTuple', 'v': {'t': [{'i': 1}]}}, {'sub': 'MySet', 'v': {'set': [{'i': 1}]}},
+              {'sub': 'MyFset', 'v': {'fs': [{'i': 1}]}}, {'sub': 'MyStr', 'v': {'s': 'ab'}},
+              {'sub': 'MyStr', 'v': {'s': ''}}]
+
+
+def to_subclass(rng, tj):
+    """the same value with the node at a random position replaced by an instance of a user SUBCLASS of
+    its builtin class holding the same content (dict / list / tuple / set / frozenset / str), or None"""
+    cands = []
+    for path in paths(tj):
+        node = get_at(tj, path)
+        if isinstance(node, dict) and 'sub' not in node:
+            k = [x for x in SUBCLASS_OF if x in node]
+            if k:
+                cands.append((path, k[0]))
+    if not cands:
+        return None
+    path, k = rng.choice(cands)
+    return set_at(tj, path, {'sub': SUBCLASS_OF[k], 'v': get_at(tj, path)})
 
 
 def edit(rng, tj):
@@ -741,6 +767,20 @@ def corpus_cases():
     for n in CONCRETE_TYPE_NAMES + base.META_TYPE_NAMES + base.INSTANCE_DEPENDENT + ['K0', 'Rec']:
         for v in POOL + [O('K0#k'), O('K1#k')]:
             yield {'spec': T(n), 'default': None, 'target': jv(v), 'world': [['K1', 'K0']]}
+    for n in ('dict', 'list', 'tuple', 'set', 'frozenset', 'str', 'object', 'Mapping', 'Sequence', 'Sized',
+              'Hashable', 'MyDict', 'MyStr', 'MyList'):
+        for sj in SUB_POOL_J:
+            yield {'spec': T(n), 'default': None, 'target': sj}
+    # container patterns / Regex / literals on instances of SUBCLASSES of the container / str
+    for spec in ({'k': 'dict', 'es': [['plain', T('str'), T('int')]]}, {'k': 'list', 'cs': [T('int'), T('str')]},
+                 {'k': 'tuple', 'cs': [T('int')]}, {'k': 'set', 'cs': [T('int')]}, {'k': 'fset', 'cs': [T('int')]},
+                 {'k': 'regex', 'items': [{'c': 'lower', 'p': True}], 'f': 'fullmatch'}, L('ab'), {'k': 'tuple', 'cs': [L(1)]},
+                 {'k': 'dict', 'es': [[{'opt': {'c': jv(0)}}, L('n'), T('int')], ['plain', T('object'), T('object')]]},
+                 {'k': 'mexpr', 'l': {'m': True}, 'op': 'ge', 'r': {'c': jv('a')}},
+                 {'k': 'pred', 'id': 0, 'fn': 'len_lt3'}, {'k': 'pred', 'id': 0, 'fn': 'is_str'}):
+        for sj in SUB_POOL_J:
+            yield {'spec': spec, 'default': None, 'target': sj}
+            yield {'spec': {'k': 'list', 'cs': [spec]}, 'default': None, 'target': {'l': [sj, sj['v']]}}
     # two instances of one class, an instance-dependent type: in one call, and in consecutive calls
     for n, attr in (('HasLabel', 'label'), ('Flagged', 'flag')):
         a, b = O('Rec#a+' + attr), O('Rec#b')
@@ -924,6 +964,14 @@ def _generate(rng, tier, scale, **focus):
         except (NoWitness, base.Unencodable, TypeError):
             pass
         targets.append(jv(rng.choice(POOL)))
+        # the same targets with a container / string replaced by an instance of a user subclass of its class
+        for tj in list(targets[:3]):
+            if rng.random() < 0.5:
+                sj = to_subclass(rng, tj)
+                if sj is not None:
+                    targets.append(sj)
+        if rng.random() < 0.15:
+            targets.append(rng.choice(SUB_POOL_J))
         seen = set()
         uniq = []
         for t in targets:
